@@ -2,6 +2,7 @@ import Cppcms.Common
 import Cppcms.C07.Proto
 import Cppcms.C10.Model
 import Cppcms.C10.Sock
+import Cppcms.C10.Sess
 import Cppcms.C10.Spec
 /-!
 `c10_model`: line-protocol driver of the C10 model and judge.
@@ -32,6 +33,8 @@ structure DState where
   /-- judge: all trigger names ever attached to a key; which clients have an L1 -/
   ev : Key → List Key := fun _ => []
   hasL1 : List Bool := []
+  /-- the session storage (`session_memory_storage`) behind every server -/
+  sess : List SessStore := []
 
 def tailStr (cl : Cluster) : String :=
   let sv := ";".intercalate (cl.servers.map fun s => s!"{s.size} {s.trigCount}")
@@ -101,6 +104,24 @@ def cwLine (w : List String) : String :=
     match parseHex rep with
     | some rep => if !frameOk rep then "bad-op" else reqHex reqClear
     | none => "bad-op"
+  | ["ssave", sid, to, v, rep] =>
+    match parseHex sid, to.toInt?, Proto.parseVal v, parseHex rep with
+    | some sid, some to, some v, some rep => if !frameOk rep then "bad-op" else reqHex (reqSessSave sid to v)
+    | _, _, _, _ => "bad-op"
+  | ["sremove", sid, rep] =>
+    match parseHex sid, parseHex rep with
+    | some sid, some rep => if !frameOk rep then "bad-op" else reqHex (reqSessRemove sid)
+    | _, _ => "bad-op"
+  | ["sload", sid, rep] =>
+    match parseHex sid, parseHex rep with
+    | some sid, some rep =>
+      if !frameOk rep then "bad-op" else
+      let (h, data) := frameOfBytes rep
+      let r := match cliDecodeSessLoad h data with
+        | some (t, v) => s!"some {t} {toHex v}"
+        | none => "none"
+      s!"{reqHex (reqSessLoad sid)} {r}"
+    | _, _ => "bad-op"
   | ["stats", rep] =>
     match parseHex rep with
     | some rep =>
@@ -156,8 +177,9 @@ def modelLine (st : DState) (w : List String) : DState × String :=
         if !frameOk fr then (st, "bad-op") else
         match recvFrame (chunksOf n fr) with
         | some (h, data, _) =>
-          let (s', rh, rdata) := srvHandle s now h data
-          ({ st with cl := st.cl.setServer i s' }, toHex (frameBytes rh rdata))
+          let (s', ss', rh, rdata) := srvHandle2 s (st.sess[i]?) now h data
+          ({ st with cl := st.cl.setServer i s', sess := match ss' with | some x => st.sess.set i x | none => st.sess },
+            toHex (frameBytes rh rdata))
         | none => (st, "recv-failed")
       | none => (st, "bad-op")
     | _, _, _, _ => (st, "bad-op")
@@ -165,7 +187,7 @@ def modelLine (st : DState) (w : List String) : DState × String :=
     match parseLimits sl, parseL1s l1 with
     | some sl, some l1 =>
       let cl := Cluster.init sl l1
-      ({ cl := cl, sp := C07.Spec.empty, mayEvict := sl.any (· > 0) }, s!"ok | {tailStr cl}")
+      ({ cl := cl, sp := C07.Spec.empty, mayEvict := sl.any (· > 0), sess := sl.map fun _ => [] }, s!"ok | {tailStr cl}")
     | _, _ => (st, "bad-op")
   | ["reset"] =>
     let cl : Cluster :=
@@ -179,8 +201,9 @@ def modelLine (st : DState) (w : List String) : DState × String :=
       | some s =>
         if !frameOk fr then (st, "bad-op") else
         let (h, data) := frameOfBytes fr
-        let (s', rh, rdata) := srvHandle s now h data
-        ({ st with cl := st.cl.setServer i s' }, toHex (frameBytes rh rdata))
+        let (s', ss', rh, rdata) := srvHandle2 s (st.sess[i]?) now h data
+        ({ st with cl := st.cl.setServer i s', sess := match ss' with | some x => st.sess.set i x | none => st.sess },
+          toHex (frameBytes rh rdata))
       | none => (st, "bad-op")
     | _, _, _ => (st, "bad-op")
   | ["req", "fetch", k, tg, g] =>
